@@ -169,14 +169,18 @@ func c09_2(c *core.Ctx, p *core.Prog) {
 	for _, bi := range a.impls() {
 		fn := bi.splitFn
 		key := "impl=" + bi.typ.Obj().Name()
-		if fn == nil || bi.counter == nil || bi.data == nil || len(fn.Params) < 3 {
+		if fn == nil || bi.counter == nil || bi.data == nil || bi.maxP == nil {
 			c.Undecided(key, "?", "", "cannot resolve split method of "+bi.typ.Obj().Name())
 			continue
 		}
 		var split *ssa.Call
 		core.EachInstr(fn, func(i ssa.Instruction) {
 			if cl, ok := i.(*ssa.Call); ok {
-				if f := cl.Call.StaticCallee(); f != nil && core.FnPkgPath(f) == core.CBPPath && len(cl.Call.Args) == 2 && types.Identical(cl.Call.Args[1].Type(), bi.data.Type()) {
+				f := cl.Call.StaticCallee()
+				if f == nil {
+					f = core.BoundCallee(cl)
+				}
+				if f != nil && core.FnPkgPath(f) == core.CBPPath && len(cl.Call.Args) == 2 && types.Identical(cl.Call.Args[1].Type(), bi.data.Type()) {
 					split = cl
 				}
 			}
@@ -191,12 +195,21 @@ func c09_2(c *core.Ctx, p *core.Prog) {
 			c.Undecided(key, pos, core.FuncName(fn), fmt.Sprintf("path condition of the splitter call not recognised (%v)", err))
 			continue
 		}
-		maxObj := fn.Params[2].Object()
+		maxObj := bi.maxP.Object()
 		countM := a.implMethod(bi.typ, a.mCount)
+		// a pointer parameter of the delegate that stands for the address of the counter
+		var countPtr token.Pos
+		for _, pr := range fn.Params {
+			if fa, ok := core.ResolveParam(pr).(*ssa.FieldAddr); ok && pr != bi.maxP && core.FieldVar(fa) == bi.counter {
+				countPtr = pr.Pos()
+			}
+		}
 		g.Roles = func(obj types.Object, e ast.Expr) (string, bool) {
 			switch {
-			case obj == maxObj:
+			case obj == maxObj || (obj != nil && obj.Pos() == bi.maxP.Pos() && bi.maxP.Pos().IsValid()):
 				return "max", true
+			case obj != nil && countPtr.IsValid() && obj.Pos() == countPtr:
+				return "count", true
 			case obj == types.Object(bi.counter):
 				return "count", true
 			case countM != nil && obj == countM.Object():
